@@ -60,12 +60,12 @@ Lemma extend_view_moved st i bpr pre els f : wf st -> i < length (seqs st) ->
 Proof. apply extend_gen_view_moved. Qed.
 
 (* ---------------------------------------------------------------- growth: cut or keep, never create *)
-Lemma grow_cases st o i : reachable st -> grows o i -> i < length (seqs st) ->
+Lemma grow_cases st o i : wf st -> grows o i -> i < length (seqs st) ->
   let st' := fst (step st o) in
   st' = st \/ length (heap st) <= sbuf (getseq st' i) \/
   (is_view (getseq st i) = false /\ sbuf (getseq st' i) = sbuf (getseq st i)).
 Proof.
-  intros Rch G Hi. pose proof (reachable_wf st Rch) as W. cbv zeta.
+  intros Rch G Hi. pose proof (ok_wf st Rch) as W. cbv zeta.
   destruct o; simpl in G; try tauto; subst; simpl.
   - (* append *)
     destruct (is_live st i) eqn:L; [|left; reflexivity]. cbn [fst].
@@ -125,7 +125,7 @@ Proof.
   rewrite nth_overflow in P by lia. lia.
 Qed.
 
-Theorem grow_links st o i : reachable st -> grows o i -> i < length (seqs st) ->
+Theorem grow_links st o i : wf st -> grows o i -> i < length (seqs st) ->
   let st' := fst (step st o) in
   (forall x y, x <> i -> y <> i -> x < length (seqs st) -> y < length (seqs st) ->
      forall q q', R st' x q y q' = R st x q y q') /\
@@ -133,7 +133,7 @@ Theorem grow_links st o i : reachable st -> grows o i -> i < length (seqs st) ->
      (exists q, R st' i q y q' = true) ->
      exists q0, q0 < length (offs (getseq st i)) /\ R st i q0 y q' = true).
 Proof.
-  intros Rch G Hi. pose proof (reachable_wf st Rch) as W. cbv zeta. split.
+  intros Rch G Hi. pose proof (ok_wf st Rch) as W. cbv zeta. split.
   - intros x y Hx Hy Lx Ly q q'.
     apply R_getseq; apply (grow_isolated st o i Rch G); auto.
   - intros y q' Hy Ly Hq (q & HR).
@@ -159,14 +159,14 @@ Proof.
 Qed.
 
 (* ---------------------------------------------------------------- creation *)
-Theorem view_links st j ix ps : reachable st -> is_live st j = true ->
+Theorem view_links st j ix ps : wf st -> is_live st j = true ->
   positions (length (offs (getseq st j))) ix = Ok ps ->
   let st' := fst (step st (OGetIdx j ix)) in
   let v := length (seqs st) in
   (forall x y, x < v -> y < v -> forall q q', R st' x q y q' = R st x q y q') /\
   (forall m y q', m < length ps -> y < v -> R st' v m y q' = R st j (nth m ps 0) y q').
 Proof.
-  intros Rch L P. pose proof (reachable_wf st Rch) as W. cbv zeta.
+  intros Rch L P. pose proof (ok_wf st Rch) as W. cbv zeta.
   destruct (view_cells st j ix ps Rch L P) as (VB & _ & VC). cbv zeta in *.
   pose proof (own_get_idx st j ix Rch L) as G. cbv zeta in G.
   pose proof (is_live_lt _ _ L) as Hj.
@@ -177,7 +177,7 @@ Proof.
     unfold cell. rewrite (K3 y Hy), (K3 j Hj). reflexivity.
 Qed.
 
-Theorem copy_links st i : reachable st -> is_live st i = true ->
+Theorem copy_links st i : wf st -> is_live st i = true ->
   let st' := fst (step st (OCopy i)) in
   let n := length (seqs st) in
   (forall x y, x < n -> y < n -> forall q q', R st' x q y q' = R st x q y q') /\
@@ -200,13 +200,13 @@ Proof. exact (R_seqs st st'). Qed.
 (* on a view: nothing (fix deb32026); on the non-view owner of a buffer that live views share, outside
    a cached build: the buffer is cut at the owner's own extent, which covers every view's rows — nobody's
    contents change, no link changes, the invariant is kept *)
-Theorem shrink_harmless st i : reachable st -> i < length (seqs st) -> scache (getseq st i) = None ->
+Theorem shrink_harmless st i : wf st -> i < length (seqs st) -> scache (getseq st i) = None ->
   let st' := shrink st i in
   wf st' /\ seqs st' = seqs st /\
   (forall x, x < length (seqs st) -> C st' x = C st x) /\
   (forall x q y q', R st' x q y q' = R st x q y q').
 Proof.
-  intros Rch Hi Hc. pose proof (reachable_wf st Rch) as W. cbv zeta. unfold shrink.
+  intros Rch Hi Hc. pose proof (ok_wf st Rch) as W. cbv zeta. unfold shrink.
   destruct (is_view (getseq st i)) eqn:Ev.
   - split; [auto|split; [auto|split; auto]].
   - destruct (wf_chain st i W Hi Ev) as (C1 & C2).
@@ -244,7 +244,7 @@ Proof.
 Qed.
 
 (* shrink_data() as an operation of histories *)
-Theorem shrink_op st i : reachable st -> is_live st i = true -> scache (getseq st i) = None ->
+Theorem shrink_op st i : wf st -> is_live st i = true -> scache (getseq st i) = None ->
   let st' := fst (step st (OShrink i)) in
   snd (step st (OShrink i)) = ROk /\ seqs st' = seqs st /\
   (forall x, x < length (seqs st) -> C st' x = C st x) /\
@@ -260,7 +260,7 @@ Proof. reflexivity. Qed.
 
 (* concatenate(seqs, axis=1): a new object with the element structure of the first operand whose rows
    are the rows of the operands' COMPACT contents joined position by position; nothing else changes *)
-Theorem concat1_spec st j0 js : reachable st -> forallb (is_live st) (j0 :: js) = true ->
+Theorem concat1_spec st j0 js : wf st -> forallb (is_live st) (j0 :: js) = true ->
   let rs := map (fun j => concat (C st j)) (j0 :: js) in
   let n := sum (lens (getseq st j0)) in
   n <> 0 ->
@@ -271,7 +271,7 @@ Theorem concat1_spec st j0 js : reachable st -> forallb (is_live st) (j0 :: js) 
     (forall k, k < length (seqs st) -> getseq st' k = getseq st k /\ C st' k = C st k)
   else snd (step st (OConcat1 (j0 :: js))) = RErr EValue /\ st' = st.
 Proof.
-  intros Rch L rs n Hn. pose proof (reachable_wf st Rch) as W. cbv zeta. unfold step. rewrite L.
+  intros Rch L rs n Hn. pose proof (ok_wf st Rch) as W. cbv zeta. unfold step. rewrite L.
   apply Nat.eqb_neq in Hn. fold n. rewrite Hn.
   change (map (fun j => concat (contents st (getseq st j))) (j0 :: js)) with rs.
   destruct (forallb (fun r => length r =? n) rs) eqn:EF; cbn [fst snd]; [|auto].
@@ -314,7 +314,7 @@ Qed.
 
 (* out-of-place operators (scalar or sequence operand), concatenate(axis=1), the constructor: the new
    object is linked to no existing object *)
-Theorem fresh_links st o : reachable st ->
+Theorem fresh_links st o : wf st ->
   match o with
   | OOp _ _ false _ | OOpSeq _ _ _ false _ | OConcat1 _ | ONew _ _ _ _ => True
   | _ => False
@@ -322,7 +322,7 @@ Theorem fresh_links st o : reachable st ->
   snd (step st o) = ROk ->
   forall y q q', y < length (seqs st) -> R (fst (step st o)) (length (seqs st)) q y q' = false.
 Proof.
-  intros Rch Ho Hr. pose proof (reachable_wf st Rch) as W.
+  intros Rch Ho Hr. pose proof (ok_wf st Rch) as W.
   destruct o; try tauto.
   - (* constructor *)
     apply (fresh_unlinked st _ W).
